@@ -64,6 +64,148 @@ pub fn eval(ms: &ModuleSet, prefix: &str) -> Verdict {
     }
 }
 
+
+// ---------------------------------------------------------------------------------------
+// components typed by a class field (`ZC-CLASS.&id`): the linker rewrites the types that hold
+// one (resolve_class_reference). The rewritten types must keep their shape: compared with the
+// same module in which the field's type is written out (INTEGER), every struct / enum has the
+// same kind marks (set, choice, delegate), the same members in the same order with the same
+// Option / default shape, and the same hoisted types.
+
+#[derive(Clone, Debug, serde::Serialize, serde::Deserialize)]
+pub struct ClsShape {
+    /// 0 top-level type holds the field; 1 an anonymous sibling of the field; 2 an anonymous
+    /// alternative of a CHOICE holds it; 3 the element of SEQUENCE OF / SET OF holds it
+    place: u8,
+    /// the holder (or the sibling) is a SET
+    set: bool,
+    /// the outer type is a SET (places 1, 3: SET OF)
+    outer_set: bool,
+    field_at: usize,
+    n: usize,
+    optional_mask: u8,
+}
+
+fn cls_shape_text(c: &ClsShape, with_field: bool) -> String {
+    let fty = if with_field { "ZC-CLASS.&id" } else { "INTEGER" };
+    let kw = |set: bool| if set { "SET" } else { "SEQUENCE" };
+    let comps = |field: bool| -> String {
+        (0..c.n)
+            .map(|k| {
+                let ty = if field && k == c.field_at % c.n { fty } else { ["BOOLEAN", "NULL", "OCTET STRING", "IA5String"][k % 4] };
+                format!("f{k} {ty}{}", if c.optional_mask >> k & 1 == 1 { " OPTIONAL" } else { "" })
+            })
+            .collect::<Vec<_>>()
+            .join(", ")
+    };
+    match c.place % 4 {
+        0 => format!("Holder ::= {} {{ {} }}", kw(c.set), comps(true)),
+        1 => format!("Holder ::= {} {{ {}, sibling {} {{ {} }} }}", kw(c.outer_set), comps(true), kw(c.set), comps(false)),
+        2 => format!("Holder ::= CHOICE {{ one {} {{ {} }}, two BOOLEAN }}", kw(c.set), comps(true)),
+        _ => format!("Holder ::= {} OF {} {{ {} }}", kw(c.outer_set), kw(c.set), comps(true)),
+    }
+}
+
+fn cls_shape_module(c: &ClsShape, with_field: bool) -> String {
+    format!(
+        "Cls-Mod DEFINITIONS AUTOMATIC TAGS ::= BEGIN\nZC-CLASS ::= CLASS {{ &id INTEGER UNIQUE, &Type }} WITH SYNTAX {{ ID &id TYPE &Type }}\n{}\nEND\n",
+        cls_shape_text(c, with_field)
+    )
+}
+
+fn cls_shape_eval(c: &ClsShape) -> Result<Option<String>, String> {
+    let compile = |with_field: bool| -> Result<Vec<crate::proj::RModule>, String> {
+        match comp::compile_rasn1(&cls_shape_module(c, with_field), &Cfg::default()) {
+            Outcome::Ok(o) if o.warnings.is_empty() => crate::proj::project(&o.generated),
+            Outcome::Ok(o) => Err(format!("warnings: {}", o.warnings[0])),
+            Outcome::Err(e) => Err(e),
+            Outcome::Panic(p) => Err(format!("panic: {p}")),
+        }
+    };
+    let (w, p) = (compile(true)?, compile(false)?);
+    let (w, p) = (w.first().ok_or("no module")?, p.first().ok_or("no module")?);
+    // kind marks and member shapes, by item name; the type of the member that holds the field is
+    // left out (a class field of a SET is rendered as an open type, of a SEQUENCE as its type)
+    let shape = |m: &crate::proj::RModule| -> Vec<String> {
+        let marks = |a: &crate::proj::Attrs| -> String { ["set", "choice", "delegate", "enumerated", "automatic_tags"].iter().filter(|k| a.flags.contains(**k)).cloned().collect::<Vec<_>>().join(",") };
+        let mut v = vec![];
+        for it in &m.items {
+            match it {
+                crate::proj::RItem::Struct(s) => {
+                    let fields: Vec<String> = s
+                        .fields
+                        .iter()
+                        .map(|f| {
+                            let holds = f.name == format!("f{}", c.field_at % c.n);
+                            format!("{}:{}{}", f.name, if holds { if f.ty.starts_with("Option<") { "Option<_>" } else { "_" } } else { f.ty.as_str() }, if f.attrs.default.is_some() { " default" } else { "" })
+                        })
+                        .collect();
+                    v.push(format!("struct {} [{}] {{ {} }}", s.name, marks(&s.attrs), fields.join("; ")));
+                }
+                crate::proj::RItem::Enum(e) => v.push(format!("enum {} [{}] {{ {} }}", e.name, marks(&e.attrs), e.variants.iter().map(|x| format!("{}({})", x.name, x.payload.join(","))).collect::<Vec<_>>().join("; "))),
+                _ => {}
+            }
+        }
+        v
+    };
+    let (sw, sp) = (shape(w), shape(p));
+    if sw != sp {
+        let d = sw.iter().zip(sp.iter()).find(|(a, b)| a != b).map(|(a, b)| format!("with the class field: `{a}`; with the field's type written out: `{b}`")).unwrap_or_else(|| format!("{} items against {}", sw.len(), sp.len()));
+        return Ok(Some(d));
+    }
+    Ok(None)
+}
+
+fn classfield_leg(ctx: &mut Ctx, tier: Tier) {
+    use rayon::prelude::*;
+    let mut cases: Vec<ClsShape> = vec![];
+    for (_p, v) in crate::ev::replay_files("C02") {
+        if v["kind"] == "c02-classfield" {
+            if let Ok(c) = serde_json::from_value::<ClsShape>(v["case"].clone()) {
+                cases.push(c);
+            }
+        }
+    }
+    for place in 0..4u8 {
+        for set in [false, true] {
+            for outer_set in [false, true] {
+                if (place == 0 || place == 2) && outer_set {
+                    continue;
+                }
+                for n in 1..=3usize {
+                    for field_at in 0..n {
+                        for optional_mask in 0..(1u8 << n) {
+                            if tier == Tier::Quick && optional_mask.count_ones() > 1 && n == 3 && field_at == 1 {
+                                continue;
+                            }
+                            cases.push(ClsShape { place, set, outer_set, field_at, n, optional_mask });
+                        }
+                    }
+                }
+            }
+        }
+    }
+    let results: Vec<(ClsShape, Result<Option<String>, String>)> = cases.into_par_iter().map(|c| { let r = cls_shape_eval(&c); (c, r) }).collect();
+    let mut reported = 0;
+    for (c, r) in results {
+        match r {
+            Err(_) => ctx.class("classfield:skipped (rejected / warnings)"),
+            Ok(res) => {
+                ctx.case(&format!("classfield:{}", cls_shape_module(&c, true)), c.set || c.outer_set || c.place > 0);
+                ctx.class("leg:class-field-component-keeps-the-shape");
+                ctx.class(&format!("classfield:place-{}", c.place));
+                if let Some(d) = res {
+                    ctx.class("fails:classfield");
+                    if reported < 3 {
+                        reported += 1;
+                        ctx.fail(crate::ev::Failure { finding: None, what: format!("a component typed by a class field changes the shape of a type: {d}"), replay: serde_json::json!({"kind": "c02-classfield", "case": c, "sources": [{"name": "cls.asn", "text": cls_shape_module(&c, true)}], "observed": d}) });
+                    }
+                }
+            }
+        }
+    }
+}
+
 pub fn run(tier: Tier, seed: u64, replay: Option<String>) -> i32 {
     let mut ctx = Ctx::new("C02", tier, seed);
     ctx.rule = "module sets from the §3 generator (types only); each compiled set (Ok, no warnings) is projected with syn \
@@ -74,6 +216,7 @@ pub fn run(tier: Tier, seed: u64, replay: Option<String>) -> i32 {
     ctx.assumptions = vec![
         "hoisted names follow Parent+TitleCase(component) / Anonymous+Parent / Parent+ExtGroup+First (observed rule)".into(),
         "which member of a recursive cycle is boxed is not asserted; only that every cycle is broken".into(),
+        "class-field leg: the Rust type of the member that is typed by the class field is not compared (open type in a SET, the field's type in a SEQUENCE); everything else is".into(),
     ];
     // the TypeScript bindings have the same obligations (C18's clauses: members in order, `?`
     // exactly on OPTIONAL / DEFAULT members, arrays, CHOICE unions, object shapes)
@@ -96,11 +239,29 @@ pub fn run(tier: Tier, seed: u64, replay: Option<String>) -> i32 {
         max_violations: 4,
         eval: &e,
     };
+    if let Some(p) = &replay {
+        let v: serde_json::Value = serde_json::from_str(&std::fs::read_to_string(p).unwrap_or_default()).unwrap_or_default();
+        if v["kind"] == "c02-classfield" {
+            if let Ok(c) = serde_json::from_value::<ClsShape>(v["case"].clone()) {
+                match cls_shape_eval(&c) {
+                    Err(e) => ctx.inconclusive.push(e),
+                    Ok(res) => {
+                        ctx.case(&cls_shape_module(&c, true), true);
+                        if let Some(d) = res {
+                            ctx.fail(crate::ev::Failure { finding: None, what: format!("a component typed by a class field changes the shape of a type: {d}"), replay: v.clone() });
+                        }
+                    }
+                }
+            }
+            return ctx.finish();
+        }
+    }
     if let Some(p) = replay {
         let r = replay_generic(&mut ctx, &run, "c02", &p);
         let code = ctx.finish();
         return if r == 2 { 2 } else { code };
     }
     run_generic(&mut ctx, &run, "c02");
+    classfield_leg(&mut ctx, tier);
     ctx.finish()
 }
